@@ -85,3 +85,9 @@ func init() {
 	props["C19"] = &propCfg{Parts: []part{{Engine: "flowsim", Quick: 30000, Thorough: 800000}},
 		Rule: flowRule + "a function, struct or batch node configured by a sequence of up to 6 settings (max retries, wait, batch concurrency, error handling; option or builder form; functions attached by option or by builder) and probed by a run with failing attempts, waits and concurrent items; the same seed and schedule are then replayed on the canonically configured twin (constructor options only, last values) and the two event logs must be identical; non-trivial = at least three callback invocations"}
 }
+
+func init() {
+	props["C20"] = &propCfg{Parts: []part{{Engine: "flowsim", Quick: 30000, Thorough: 800000}},
+		Rule: flowRule + "budgets 2..5, waits 10..50 ms and 1 h on the fake clock, all failure sequences, single nodes and batch items (sequential and concurrent); one third of the runs cancel at an off-grid instant strictly inside a 1 h retry wait; timestamps are exact simulated times; non-trivial = at least three callback invocations",
+		Must: []string{"cancel_landed_in_wait", "retry_attempt"}}
+}
